@@ -186,7 +186,12 @@ func (s *Sched) collect() {
 		}
 	}
 	if len(fresh) > 1 {
-		sort.SliceStable(fresh, func(i, j int) bool { return fresh[i].label < fresh[j].label })
+		sort.SliceStable(fresh, func(i, j int) bool {
+			if fresh[i].label != fresh[j].label {
+				return fresh[i].label < fresh[j].label
+			}
+			return fresh[i].goid < fresh[j].goid
+		})
 	}
 	for _, t := range fresh {
 		t.id = s.nextID
